@@ -317,7 +317,7 @@ def int_lit(n):
 
 def rc_facts(docs):
     f = dict(rc_atomic=False, rc_init_one=False, rc_inc_single=False, rc_dec_single=False,
-             rc_dec_own_result=False, rc_dec_deletes=False, rc_use_load=False)
+             rc_dec_own_result=False, rc_dec_deletes=False, rc_use_load=False, rc_width64=False)
     info = {}
     bodies = {}
     for d in docs:
@@ -328,6 +328,12 @@ def rc_facts(docs):
                     info["counter_type"] = t
                     f["rc_atomic"] = t.replace(" ", "").startswith("std::atomic<") and not any(
                         w in t for w in ("float", "double", "*"))
+                    td = (c.get("type", {}).get("desugaredQualType") or t).replace("const ", "").replace("volatile ", "").strip()
+                    val = td[td.find("<") + 1:td.rfind(">")].strip() if "<" in td else td
+                    info["counter_value_type"] = val
+                    # LP64: long and long long are 64-bit signed; anything else (int, unsigned ..., short) is not
+                    f["rc_width64"] = val in ("long long", "long", "long long int", "long int", "signed long long", "signed long",
+                                              "int64_t", "std::int64_t", "__int64_t", "ptrdiff_t", "std::ptrdiff_t", "intptr_t", "ssize_t")
                     lits = [int(x.get("value")) for x, _ in walk(c) if x.get("kind") == "IntegerLiteral"]
                     f["rc_init_one"] = lits == [1]
                 if c.get("kind") == "CXXMethodDecl" and c.get("name") in ("refInc", "refDec", "useCount"):
@@ -815,8 +821,8 @@ def coq_text(table, rc, cmpf=None, mem=None, sel=None, free=None):
         lines.append("  | %s => [%s]" % (m, "; ".join(table[m])))
     lines += ["  end.", "",
               "Definition gen_rc : rcfacts :=",
-              "  mkRc %s %s %s %s %s %s %s." % tuple(b(rc[k]) for k in (
-                  "rc_atomic", "rc_init_one", "rc_inc_single", "rc_dec_single", "rc_dec_own_result", "rc_dec_deletes", "rc_use_load")),
+              "  mkRc %s %s %s %s %s %s %s %s." % tuple(b(rc.get(k, False)) for k in (
+                  "rc_atomic", "rc_init_one", "rc_inc_single", "rc_dec_single", "rc_dec_own_result", "rc_dec_deletes", "rc_use_load", "rc_width64")),
               ""]
     cmpf = cmpf or {"c_eq": "CUnk", "c_ne": "CUnk", "c_lt": "CUnk", "a_bool": False, "a_arrow": False, "a_deref": False, "c_mixed": False}
     mem = mem if mem is not None else ["DOther 0"]
